@@ -67,6 +67,7 @@ type RunCfg struct {
 	SplitFiles       bool // write the program as call file + included declarations
 	RestartTransform string
 	ExtraFiles       bool
+	QuickRestart     int    // if > 0: the operator restarts after QuickRestart-1 steps of the orphans\' reactions
 	LinkDirs         bool   // stages may report outputs through a symlinked sub-directory of files/
 	DirOutputs       bool   // a file-typed output may be a directory holding several files
 	Companions       bool   // stages may write x.idx next to an output file x
@@ -582,7 +583,7 @@ func (r *Run) Execute() {
 			for _, t := range parked {
 				others = append(others, t)
 			}
-			if len(others) > 0 && drain < 400 && r.drainBeforeRestart() {
+			if len(others) > 0 && drain < r.drainLimit() && r.drainBeforeRestart() {
 				drain++
 				r.release(others, false)
 				continue
@@ -677,6 +678,17 @@ func (r *Run) advance(dl time.Time) {
 }
 
 func (r *Run) drainBeforeRestart() bool { return true }
+
+// drainLimit is the number of steps surviving job processes get to react to the
+// death of their mrp before the operator restarts it (the last incarnation always
+// drains fully).  A short drain lets orphans of the old incarnation run alongside
+// the new one.
+func (r *Run) drainLimit() int {
+	if r.Cfg.QuickRestart > 0 && r.wantRestart(r.Inc-1) {
+		return r.Cfg.QuickRestart - 1
+	}
+	return 400
+}
 
 func (r *Run) wantRestart(restarts int) bool {
 	if restarts >= r.Cfg.Restarts {
